@@ -19,28 +19,6 @@ mod proofs {
         }
     }
 
-    /// BOUNDED: wire layout of DATA for all block numbers and all payloads of length <= 3
-    #[kani::proof]
-    #[kani::unwind(9)]
-    fn data_layout_and_roundtrip_len_le_3() {
-        let n: u16 = kani::any();
-        let len: usize = kani::any();
-        kani::assume(len <= 3);
-        let mut data = Vec::new();
-        for _ in 0..len {
-            data.push(kani::any::<u8>());
-        }
-        let b = Packet::Data { block_num: n, data: data.clone() }.serialize().unwrap();
-        assert!(b.len() == 4 + len && b[0] == 0 && b[1] == 3 && b[2] == (n / 256) as u8 && b[3] == (n % 256) as u8);
-        for i in 0..len {
-            assert!(b[4 + i] == data[i]);
-        }
-        match Packet::deserialize(&b) {
-            Ok(Packet::Data { block_num, data: d }) => assert!(block_num == n && d == data),
-            _ => assert!(false),
-        }
-    }
-
     fn opcode_num(o: &Opcode) -> u16 {
         match o {
             Opcode::Rrq => 1,
